@@ -423,6 +423,10 @@ func (env *env) pathIntact(v any) bool {
 		switch w.(type) {
 		case []any, map[string]any:
 			v, w := reflect.ValueOf(v), reflect.ValueOf(w)
+			if v.Kind() == reflect.Slice && w.Kind() == reflect.Slice && v.Len() == 0 && w.Len() == 0 {
+				// empty slices have no identity: their address depends on capacity and allocation
+				return true
+			}
 			return v.Pointer() == w.Pointer() && v.Len() == w.Len()
 		}
 	case int, float64, *big.Int, json.Number:
